@@ -79,6 +79,17 @@ impl Numeric {
     pub fn to_rational(&self) -> (BigInt, BigInt) {
         match *self {
             Numeric::Rational(ref rational) => (rational.numer(), rational.denom()),
+            Numeric::Float(x) if !x.is_finite() => {
+                // No rational value: NaN is 0/0, the infinities are 1/0 and -1/0.
+                let numer: i64 = if x.is_nan() {
+                    0
+                } else if x > 0.0 {
+                    1
+                } else {
+                    -1
+                };
+                (BigInt::from(numer), BigInt::zero())
+            }
             Numeric::Float(x) => {
                 let rational = BigRat::from(x);
                 (rational.numer(), rational.denom())
